@@ -60,3 +60,9 @@ def diff_dumps(real, model, keys=None):
         if a.get(k) != b.get(k):
             diffs.append({'table': k, 'real': a.get(k), 'model': b.get(k)})
     return diffs
+
+
+def load_dump(model, dump):
+    """install a canonical dump of the real database into the model (after model.reset)"""
+    r = model.send({'cmd': 'load', 'dump': dump})
+    assert r.get('ok'), r
